@@ -512,7 +512,16 @@ impl Gen {
                 Some(pid)
             }
         };
-        let (props, ascii) = if rng.chance(self.p.props_pct, 100) { rand_server_publish_props(rng) } else { (vec![], false) };
+        let (mut props, ascii) = if rng.chance(self.p.props_pct, 100) { rand_server_publish_props(rng) } else { (vec![], false) };
+        if rx >= 70_000 && rng.chance(1, 2) {
+            // a property block around and beyond 64 KiB
+            props.retain(|p| !matches!(p, Prop::CorrelationData(_) | Prop::ContentType(_)));
+            match rng.below(3) {
+                0 => props.push(Prop::CorrelationData(vec![0xC4; *rng.pick(&[65_530usize, 65_533, 65_534, 65_535])])),
+                1 => props.push(Prop::ContentType("t".repeat(*rng.pick(&[65_530usize, 65_533, 65_535])))),
+                _ => props.push(Prop::UserProperty("a".repeat(40_000), "b".repeat(26_000))),
+            }
+        }
         let topic = rand_topic(rng, self.p.topic_max);
         self.tag += 1;
         let overhead = 2 + 2 + topic.len() + 2 + crate::refcodec::props_encoded_len(&props) + 4;
@@ -757,12 +766,14 @@ pub struct WithEpilogue<D> {
     /// a behaving broker may still announce limits: one continuation in three announces the
     /// smallest Maximum Packet Size under which everything the session holds still fits
     pub tight_limits: bool,
+    /// the broker has lost the session: the continuation's CONNACK reports no session
+    pub force_fresh: bool,
     rt: std::collections::VecDeque<Step>,
 }
 
 impl<D> WithEpilogue<D> {
     pub fn new(inner: D, max_polls: usize) -> Self {
-        WithEpilogue { inner, stage: 0, polls: 0, max_polls, from_step: None, round_trip: false, tight_limits: false, rt: Default::default() }
+        WithEpilogue { inner, stage: 0, polls: 0, max_polls, from_step: None, round_trip: false, tight_limits: false, force_fresh: false, rt: Default::default() }
     }
 }
 
@@ -817,7 +828,7 @@ impl<D: Driver> Driver for WithEpilogue<D> {
                 2 => {
                     self.stage = 3;
                     // resume iff the client is going to ask for it
-                    let mut c = benign_connect(v.snap.session_present);
+                    let mut c = benign_connect(v.snap.session_present && !self.force_fresh);
                     if self.tight_limits {
                         let lens: Vec<usize> = v.snap.tx.retained.iter().map(|e| e.len).collect();
                         let pick = lens.iter().sum::<usize>() + v.snap.tx.release.len() + v.snap.tx.control.len();
